@@ -177,7 +177,8 @@ def make_iter(ds, iface: str, split: str, opts: dict, process_record=None):
         if opts.get("tf_slow"):
             kw["process_record"] = slow_tf_identity(ds)
         batch = opts.get("batch", 0)
-        tfds = ds.as_tfdataset(batch_size=batch, prefetch=1,
+        tfds = ds.as_tfdataset(batch_size=batch,
+                               prefetch=opts.get("prefetch", 1),
                                file_parallelism=opts.get("fp", 2),
                                parallelism=opts.get("fp", 2), **kw)
         if batch <= 0:
